@@ -73,6 +73,34 @@ func Primes(bits int, nthRoot uint64, k int, pos int, skip map[uint64]bool) []ui
 	return out
 }
 
+// PrimesFrom returns up to k primes congruent to 1 mod nthRoot found by stepping from start
+// (upwards, or downwards when down is set); used for primes next to a chosen real number, e.g.
+// 2^64/j, where the low word of the Barrett constant floor(2^128/q) is next to 2^64 (above) or 0 (below).
+func PrimesFrom(start, nthRoot uint64, k int, down bool) []uint64 {
+	c := start - (start % nthRoot) + 1
+	if down {
+		for c > start {
+			c -= nthRoot
+		}
+	} else {
+		for c < start {
+			c += nthRoot
+		}
+	}
+	var out []uint64
+	for steps := 0; steps < 200_000 && len(out) < k && c > nthRoot && c < 1<<63; steps++ {
+		if IsPrime(c) {
+			out = append(out, c)
+		}
+		if down {
+			c -= nthRoot
+		} else {
+			c += nthRoot
+		}
+	}
+	return out
+}
+
 // Chain draws nq Q-primes and np P-primes with the given bit sizes (cycled), all distinct.
 func Chain(r *eng.Rand, nthRoot uint64, qbits []int, pbits []int) (q, p []uint64) {
 	skip := map[uint64]bool{}
